@@ -10,6 +10,12 @@ hook invocation `run w hc n call v` for *any* world, configuration (Converter / 
 both strategies, both validation modes, `forbid_extra_keys`, TypedDict overrides), type / call,
 value and nesting fuel.  Result: `(run … st).1` (`none` = an exception propagated) and the store
 afterwards `(run … st).2` — available on the error path too.
+
+NamedTuples (`Ty.nt`, `planNTUn` / `planSt`): structuring builds a new instance; unstructuring by a `Converter`
+builds a new tuple unless no item needs conversion (`cols._is_passthrough`: every field hook is `identity`),
+in which case -- and always for a `BaseConverter`, which has no NamedTuple hook -- the instance itself is returned:
+a logged pass-through ("a named tuple that needs no conversion may pass through as the tuple it is"); the instance
+is an immutable tuple, so its identity is not observable (the driver does not report it as an alias).
 -/
 namespace CattrsModel
 open Heap
